@@ -444,6 +444,19 @@ def targeted(ctx, camp):
         # a duplicated W would release Y while Z is still running
         ("double-join", [0, 1, 2, 3, 4], [(0, 3, "pos"), (1, 3, "pos"), (3, 4, "pos"), (2, 4, "pos")]),
     ]
+    # a call that is in flight when the error limit is exceeded finishes successfully afterwards: none of its (failing)
+    # dependents may start - the stop must be sticky, not a one-time purge of the queue
+    for workers in (2, 3):
+        for max_errors in (0, 1):
+            for si in range(ctx.n(6, 40)):
+                nodes = [0, 1, 2, 3, 4, 5, 6]
+                edges = [(1, k, "pos") for k in (2, 3, 4, 5, 6)]
+                failing = [0, 2, 3, 4, 5, 6] if max_errors == 0 else [0, 2, 3, 4, 5, 6]
+                chooser = detsched.random_chooser(rng, rng.choice([0.2, 0.5])) if si % 2 else detsched.pct_chooser(rng, depth=3, horizon=400)
+                run, outcome = camp.one(nodes + ([7] if max_errors else []), edges, workers, max_errors, rng.choice(["cheap", "random", "default"]),
+                                        failing + ([7] if max_errors else []), "Exception", chooser, "targeted:late-success-failing-dependents")
+                ctx.case(("targeted", "late-success", workers, max_errors, tuple(run.sched.decisions[:200])))
+                ctx.count("targeted_shape", "late-success-failing-dependents")
     for name, nodes, edges in shapes:
         for workers in (1, 2, 3):
             for exc_kind, failing, max_errors in (("Exception", [], 0), ("BaseException", [nodes[0]], 0),
